@@ -55,6 +55,52 @@ if 'verif_recorder' not in bp.app.base.APPLICATIONS:
             return None
 
 
+# The rest of the application set that bp/app/__init__.py loads in a deployment (zeroconf adds no chain step and
+# only talks to the network).  Imported after the recorder so that the recorder sits before them among the
+# order-30 steps (the sort is stable): whatever reaches the application steps is seen by the recorder.
+import bp.app.sand  # noqa: E402
+import bp.app.safe  # noqa: E402
+import bp.safe_info  # noqa: E402
+boot._check_origin(bp.app.sand, bp.app.safe, bp.safe_info)
+
+APP_RECORDS = []     # what the SAND / SAFE applications consumed: dict(app=, agent=, dest=, source=, ts=)
+
+
+def _wrap_app_consumers():
+    real_group = bp.app.sand.SAND._recv_group
+    real_safe = bp.app.safe.SAFE._recv_bundle
+    real_pdu = bp.safe_info.SafeEntity.recv_pdu
+    current = []
+
+    def recv_group(self, ctr):
+        pri = ctr.bundle.primary
+        APP_RECORDS.append(dict(app='sand', agent=self._agent, dest=pri.destination, source=pri.source,
+                                ts=(pri.create_ts.getfieldval('dtntime'), pri.create_ts.getfieldval('seqno'))))
+        return real_group(self, ctr)
+
+    def safe_recv(self, ctr):
+        current.append((self, ctr))
+        try:
+            return real_safe(self, ctr)
+        finally:
+            current.pop()
+
+    def recv_pdu(self, pdu, peer_eid):
+        if current:
+            app_obj, ctr = current[-1]
+            pri = ctr.bundle.primary
+            APP_RECORDS.append(dict(app='safe', agent=app_obj._agent, dest=pri.destination, source=pri.source,
+                                    ts=(pri.create_ts.getfieldval('dtntime'), pri.create_ts.getfieldval('seqno'))))
+        return real_pdu(self, pdu, peer_eid)
+
+    bp.app.sand.SAND._recv_group = recv_group
+    bp.app.safe.SAFE._recv_bundle = safe_recv
+    bp.safe_info.SafeEntity.recv_pdu = recv_pdu
+
+
+_wrap_app_consumers()
+
+
 class FakeCL(object):
     ''' Stands in for a bp.cla adaptor: records what is handed to the convergence layer. '''
 
@@ -79,7 +125,7 @@ class FakeCL(object):
 
 
 class Node(object):
-    def __init__(self, node_id, rx_routes=(), tx_routes=(), accept_after_verify=False, name=None):
+    def __init__(self, node_id, rx_routes=(), tx_routes=(), accept_after_verify=False, name=None, apps=None):
         ''' rx_routes: [(regex, action)], tx_routes: [(regex, next_node, mtu)] '''
         self.node_id = node_id
         self.ctx = simloop.Context(name or node_id)
@@ -89,6 +135,8 @@ class Node(object):
         for pat, nxt, mtu in tx_routes:
             cfg.tx_route_table.append(bp.config.TxRouteItem(eid_pattern=re.compile(pat), next_nodeid=nxt,
                                                             cl_type='fake', mtu=mtu, raw_config={'next': nxt}))
+        if apps:
+            cfg.apps = dict(apps)
         self.config = cfg
         with simloop.entered(self.ctx):
             self.agent = bp.agent.Agent(cfg)
@@ -109,6 +157,9 @@ class Node(object):
         if deliveries_only:
             out = [r for r in out if r['deliver'] and not r['fragment']]
         return out
+
+    def app_records(self):
+        return [r for r in APP_RECORDS if r['agent'] is self.agent]
 
     def run(self, max_iter=2000):
         ''' Run the main loop until nothing is ready. '''
@@ -180,6 +231,7 @@ def reset():
     that a case is a pure function of its own history. '''
     simloop.reset()
     del RECORDS[:]
+    del APP_RECORDS[:]
     for mapping, pristine in _PRISTINE:
         if mapping != pristine:
             mapping.clear()
